@@ -9,6 +9,43 @@ import (
 	"golang.org/x/tools/go/ssa"
 )
 
+// remainderExamined: from the instruction that trims the echo off the buffer, every path to the next channel read
+// passes a test of the delimiter pattern -- what followed the echo may already be a complete (late) reply and must be
+// filed before further bytes are appended to it.
+func remainderExamined(c *Ctx, r *Report, read *ssa.Function, at ssa.Instruction, construct string) {
+	rule := "C08/echo-remainder-examined"
+	chRead := c.LookupFunc("channel", "Channel", "Read")
+	pp := c.LookupField("channel", "Channel", "PromptPattern")
+	if chRead == nil || pp == nil {
+		r.Anchor(rule, "(*channel.Channel).Read / channel.Channel.PromptPattern")
+		return
+	}
+	isMatch := func(in ssa.Instruction) bool {
+		call, ok := in.(*ssa.Call)
+		if !ok || len(call.Call.Args) < 2 {
+			return false
+		}
+		o := CalleeObj(call)
+		if o == nil || o.Pkg() == nil || o.Pkg().Path() != "regexp" {
+			return false
+		}
+		f, _, ok := fieldLoad(call.Call.Args[0])
+		return ok && f == pp
+	}
+	rr := reachFrom(read, at, isMatch, nil)
+	var hit ssa.Instruction
+	for in := range rr.visited {
+		if ci, ok := in.(*ssa.Call); ok && ci.Call.StaticCallee() == chRead {
+			hit = in
+		}
+	}
+	if hit != nil {
+		r.Bad(rule, construct, c.Pos(at.Pos()), "after the echo is trimmed off, the reader goes back to reading without looking at what is left: a complete late reply that arrived behind the echo stays in the buffer, the next read (the reply to the current request) is appended to it, and both are filed under the first one's message-id -- the current call never gets its reply", rr.witness(c, hit)...)
+	} else {
+		r.OK(rule, construct, c.Pos(at.Pos()), "the remainder is tested against the delimiter before the next read")
+	}
+}
+
 func checkEchoKeepsRest(c *Ctx, r *Report, read *ssa.Function) {
 	rule := "C08/echo-keeps-rest"
 	n := 0
@@ -57,6 +94,7 @@ func checkEchoKeepsRest(c *Ctx, r *Report, read *ssa.Function) {
 			ia := sl.Low.(*ssa.UnOp).X.(*ssa.IndexAddr)
 			if k, ok := constInt(ia.Index); ok && k == 1 {
 				r.OK(rule, construct, c.Pos(sl.Pos()), "b[loc[1]:] with loc the first delimiter match: only the bytes up to the first delimiter are dropped")
+				remainderExamined(c, r, read, sl, construct)
 			} else {
 				r.Bad(rule, construct, c.Pos(sl.Pos()), "the buffer is not cut at the END of the first delimiter match (loc[1]): the delimiter itself stays in front of what follows, or more than the echo is dropped")
 			}
@@ -110,6 +148,7 @@ func checkEchoKeepsRest(c *Ctx, r *Report, read *ssa.Function) {
 			r.Bad(rule, construct, c.Pos(sp.Pos()), bad+": a reply the server sent in full right behind the echo is lost")
 		} else {
 			r.OK(rule, construct, c.Pos(sp.Pos()), "split(…, 2)[1]: only the bytes up to the first delimiter are dropped")
+			remainderExamined(c, r, read, sp, construct)
 		}
 	}
 }
